@@ -52,8 +52,40 @@ def field_of(node, fifo):
     return None
 
 
-def sym(node, env, fifo):
+PROG = [None]
+
+
+def inline_call(n):
+    """(callee function, its single return expression, {param: argument node}) for a pure one-liner helper"""
+    prog = PROG[0]
+    if prog is None or n.k != "CallExpr" or not n.get("callee"):
+        return None
+    g = prog.fn(n["callee"])
+    if g is None:
+        return None
+    rets = [x for x in g.nodes.values() if x.k == "ReturnStmt" and x.ch]
+    has_store = any(C.store_target(x) is not None for x in g.nodes.values())
+    if len(rets) != 1 or has_store:
+        return None
+    args = C.call_args(n)
+    return g, rets[0].child(0), {p["name"]: a for p, a in zip(g.params, args)}
+
+
+def sym(node, env, fifo, subst=None):
     n = node.strip_all_casts()
+    if subst and n.k == "DeclRefExpr" and n["decl"]["name"] in subst:
+        a, aenv_fifo, asub = subst[n["decl"]["name"]]
+        return sym(a, env, aenv_fifo, asub)
+    ic = inline_call(n)
+    if ic:
+        g, rexpr, amap = ic
+        # the helper's own fifo parameter is whatever pointer argument it received
+        gfifo = None
+        for pn, a in amap.items():
+            if a.strip_all_casts().get("path") == fifo:
+                gfifo = pn
+        sub = {pn: (a, fifo, subst) for pn, a in amap.items()}
+        return sym(rexpr, env, gfifo or fifo, sub)
     c = C.const_of(n)
     if c is not None and n.k != "DeclRefExpr":
         return Lin({}, c)
@@ -61,12 +93,12 @@ def sym(node, env, fifo):
     if f:
         return env[f]
     if n.k == "BinaryOperator" and n.get("op") in ("+", "-"):
-        return sym(n.child(0), env, fifo).add(sym(n.child(1), env, fifo), 1 if n["op"] == "+" else -1)
+        return sym(n.child(0), env, fifo, subst).add(sym(n.child(1), env, fifo, subst), 1 if n["op"] == "+" else -1)
     if n.k == "BinaryOperator" and n.get("op") == "%":
-        d = sym(n.child(1), env, fifo)
+        d = sym(n.child(1), env, fifo, subst)
         if d.mod or d.c != {"size": 1} or d.k != 0:
             raise Unsupported("modulus `%s` is not the capacity" % n.child(1).src)
-        a = sym(n.child(0), env, fifo)
+        a = sym(n.child(0), env, fifo, subst)
         if a.mod:
             raise Unsupported("nested modulo")
         return Lin(mod=True, dividend=a)
@@ -101,8 +133,19 @@ def le(ab, cd):    # a*size+b <= c*size+d for all size >= 1
 
 
 # ---- concrete C evaluation of the extracted expressions (refutation only) -------------------------
-def conc(node, st, fifo):
+def conc(node, st, fifo, subst=None):
     n = node.strip_all_casts()
+    if subst and n.k == "DeclRefExpr" and n["decl"]["name"] in subst:
+        a, afifo, asub = subst[n["decl"]["name"]]
+        return conc(a, st, afifo, asub)
+    ic = inline_call(n)
+    if ic:
+        g, rexpr, amap = ic
+        gfifo = None
+        for pn, a in amap.items():
+            if a.strip_all_casts().get("path") == fifo:
+                gfifo = pn
+        return conc(rexpr, st, gfifo or fifo, {pn: (a, fifo, subst) for pn, a in amap.items()})
     c = C.const_of(n)
     if c is not None and n.k != "DeclRefExpr":
         return c
@@ -111,7 +154,7 @@ def conc(node, st, fifo):
         return st[f]
     if n.k == "BinaryOperator":
         op = n["op"]
-        a, b = conc(n.child(0), st, fifo), conc(n.child(1), st, fifo)
+        a, b = conc(n.child(0), st, fifo, subst), conc(n.child(1), st, fifo, subst)
         if op == "+": return a + b
         if op == "-": return a - b
         if op == "*": return a * b
@@ -134,11 +177,11 @@ def conc(node, st, fifo):
         if op == ">": return int(a > b)
         if op == ">=": return int(a >= b)
     if n.k == "UnaryOperator" and n.get("op") == "-":
-        return -conc(n.child(0), st, fifo)
+        return -conc(n.child(0), st, fifo, subst)
     if n.k == "UnaryOperator" and n.get("op") == "~":
-        return ~conc(n.child(0), st, fifo)
+        return ~conc(n.child(0), st, fifo, subst)
     if n.k == "ConditionalOperator":
-        return conc(n.child(1), st, fifo) if conc(n.child(0), st, fifo) else conc(n.child(2), st, fifo)
+        return conc(n.child(1), st, fifo, subst) if conc(n.child(0), st, fifo, subst) else conc(n.child(2), st, fifo, subst)
     raise Unsupported("`%s`" % n.src)
 
 
